@@ -146,6 +146,9 @@ func (m *Message) CopyInto(to *Message) {
 	m.Body.CopyInto(&to.Body.FieldMap)
 	m.Trailer.CopyInto(&to.Trailer.FieldMap)
 
+	// The destination must not keep serialising raw bytes it was parsed from earlier.
+	to.rawMessage = nil
+
 	to.ReceiveTime = m.ReceiveTime
 	to.bodyBytes = make([]byte, len(m.bodyBytes))
 	copy(to.bodyBytes, m.bodyBytes)
